@@ -3106,13 +3106,18 @@ namespace detail {
                     {
                         end = val.size();
                     }
-                    for (int64_t i = start; i < end; i += step)
+                    for (int64_t i = start; i < end; )
                     {
                         reference j = this->apply_expressions(val.at(static_cast<std::size_t>(i)), context, ec);
                         if (!j.is_null())
                         {
                             result->emplace_back(const_json_ptr_arg, &j);
                         }
+                        if (step >= end - i) // i + step would reach end (and may not be representable)
+                        {
+                            break;
+                        }
+                        i += step;
                     }
                 }
                 else
@@ -3125,13 +3130,18 @@ namespace detail {
                     {
                         end = -1;
                     }
-                    for (int64_t i = start; i > end; i += step)
+                    for (int64_t i = start; i > end; )
                     {
                         reference j = this->apply_expressions(val.at(static_cast<std::size_t>(i)), context, ec);
                         if (!j.is_null())
                         {
                             result->emplace_back(const_json_ptr_arg, &j);
                         }
+                        if (step <= end - i) // i + step would reach end (and may not be representable)
+                        {
+                            break;
+                        }
+                        i += step;
                     }
                 }
 
